@@ -13,7 +13,10 @@ struct C02 : Prop {
 		       "address depth 0-3, arbitrary data incl. bytes needing escapes, any sequence number) interleaved with corrupted copies (bit flip, dropped / "
 		       "inserted byte, truncation, extra delimiters), noise between packets and arbitrary chunking across read polls; second workload loops the "
 		       "library's own downlink back into its receiver. The same delivered bytes are decoded by the independent reference codec; messages read must equal "
-		       "the GOOD frames' messages in order, exactly once. non-trivial = a GOOD frame follows a corrupted one; distinct = (plan-shape, trace hash).";
+		       "the GOOD frames' messages in order, exactly once; runs with 2-3 sessions (a stream may end inside a packet; each session is judged on its own stream: nothing "
+		       "of an earlier session's partial packet may reach the next one); normal-mode runs in which error-class messages (SYS_ERROR, NODE_NA, FEATURE_NA, LC_NA) and "
+		       "bit-flipped copies arrive while an application task drains bidib_read_error_message under the GLib-container lockset monitor. "
+		       "non-trivial = a GOOD frame follows a corrupted one; distinct = (plan-shape, trace hash).";
 	}
 
 	static ref::Msg rnd_msg(Rng &r) {
